@@ -8,7 +8,7 @@ package compiler
 // package-level IR constants / runtime function handles: assigned once during set-up, never afterwards
 immutable g:compiler.zero g:compiler.ddp_runtime_error_irfun g:compiler.ddpint
 // the AST is not rewritten during code generation
-immutable ast.BinaryExpr ast.Indexing ast.UnaryExpr ast.TernaryExpr ast.AssignStmt ast.Module.Ast ast.Ast.Faulty compiler.compiler.ddpModule
+immutable ast.FuncDecl ast.BinaryExpr ast.Indexing ast.UnaryExpr ast.TernaryExpr ast.AssignStmt ast.Module.Ast ast.Ast.Faulty compiler.compiler.ddpModule
 // the compiler's type descriptors and IR constants are created once during set-up
 immutable compiler.compiler.ddpinttyp compiler.compiler.ddpfloattyp compiler.compiler.ddpbytetyp compiler.compiler.ddpbooltyp compiler.compiler.ddpchartyp
 immutable g:compiler.zerof g:compiler.all_ones g:compiler.all_ones8 g:compiler.ddpfloat g:compiler.ddpbyte g:compiler.ddpbool g:compiler.ddpchar g:compiler.zero8
@@ -230,6 +230,13 @@ func (*ddpIrStructType).IsPrimitive [C18]
 func (ddpIrType).PtrType
   pure
   trusted
+// the descriptors are filled in once, when they are created
+immutable compiler.ddpIrVoidType compiler.ddpIrGenericListType g:compiler.i8ptr compiler.compiler.void compiler.compiler.ddpgenericlist
+immutable compiler.compiler.ddpstring compiler.compiler.ddpany compiler.compiler.ddpintlist compiler.compiler.ddpfloatlist compiler.compiler.ddpbytelist compiler.compiler.ddpboollist compiler.compiler.ddpcharlist compiler.compiler.ddpstringlist compiler.compiler.ddpanylist
+func (*ddpIrVoidType).IrType
+  pure
+func (*ddpIrGenericListType).PtrType
+  pure
 
 // class of a DDP type after removing aliases and type definitions (what the representation depends on):
 // 1 Zahl, 2 Kommazahl, 3 Byte, 4 Wahrheitswert, 5 Buchstabe, 6 Text, 7 Variable, 0 anything else
@@ -244,6 +251,7 @@ spec isStructT(t ddptypes.Type) bool := is[*ddptypes.StructType](ddptypes.tnorm(
 // the descriptor of every DDP type, by class
 func (*compiler).toIrType [C18]
   requires c != nil
+  modifies nothing
   ensures !isListT(ddpType) && 1 <= tcls(ddpType) && tcls(ddpType) <= 5 ==> result == descr(c, tcls(ddpType))
   ensures !isListT(ddpType) && tcls(ddpType) == 6 ==> result == box(c.ddpstring)
   ensures !isListT(ddpType) && tcls(ddpType) == 7 ==> result == box(c.ddpany)
@@ -257,4 +265,125 @@ func (*compiler).toIrType [C18]
   // by value exactly for the five primitive classes (and "nothing")
   ensures !isListT(ddpType) && 1 <= tcls(ddpType) && tcls(ddpType) <= 5 ==> result.IsPrimitive()
   ensures isListT(ddpType) || tcls(ddpType) == 6 || tcls(ddpType) == 7 || isStructT(ddpType) ==> !result.IsPrimitive()
+  ensures !isListT(ddpType) && isStructT(ddpType) ==> result == box(c.structTypes[ddptypes.tnorm(ddpType).(*ddptypes.StructType)])
+
+// IR type of a value of the described type / of a pointer to it
+spec valOf(d ddpIrType) types.Type := d.IrType()
+spec ptrOf(d ddpIrType) types.Type := box(d.PtrType())
+
+// a parameter's IR type: the five primitive classes by value, everything else and every Referenz by pointer
+func (*compiler).toIrParamType [C18]
+  requires c != nil
+  modifies nothing
+  ensures !ty.IsReference && !isListT(ty.Type) && 1 <= tcls(ty.Type) && tcls(ty.Type) <= 5 ==>
+            result == valOf(descr(c, tcls(ty.Type)))
+  ensures ty.IsReference && !isListT(ty.Type) && 1 <= tcls(ty.Type) && tcls(ty.Type) <= 5 ==>
+            result == ptrOf(descr(c, tcls(ty.Type)))
+  ensures !isListT(ty.Type) && tcls(ty.Type) == 6 ==> result == ptrOf(box(c.ddpstring))
+  ensures !isListT(ty.Type) && tcls(ty.Type) == 7 ==> result == ptrOf(box(c.ddpany))
+  ensures isListT(ty.Type) && tcls(elemT(ty.Type)) == 1 ==> result == ptrOf(box(c.ddpintlist))
+  ensures isListT(ty.Type) && tcls(elemT(ty.Type)) == 2 ==> result == ptrOf(box(c.ddpfloatlist))
+  ensures isListT(ty.Type) && tcls(elemT(ty.Type)) == 3 ==> result == ptrOf(box(c.ddpbytelist))
+  ensures isListT(ty.Type) && tcls(elemT(ty.Type)) == 4 ==> result == ptrOf(box(c.ddpboollist))
+  ensures isListT(ty.Type) && tcls(elemT(ty.Type)) == 5 ==> result == ptrOf(box(c.ddpcharlist))
+  ensures isListT(ty.Type) && tcls(elemT(ty.Type)) == 6 ==> result == ptrOf(box(c.ddpstringlist))
+  ensures isListT(ty.Type) && tcls(elemT(ty.Type)) == 7 ==> result == ptrOf(box(c.ddpanylist))
+  ensures !isListT(ty.Type) && isStructT(ty.Type) ==>
+            result == ptrOf(box(c.structTypes[ddptypes.tnorm(ty.Type).(*ddptypes.StructType)]))
+  ensures repOK(c, ty, result)
+
+// the representation published in the runtime headers: rep(c, ty) is the IR type of a parameter of type ty. It is
+// DEFINED by the axioms below for every class except Kombinationen (whose descriptor lives in a mutable table)
+spec rep(c *compiler, ty ddptypes.ParameterType) types.Type
+spec byValueT(t ddptypes.Type) bool := !isListT(t) && 1 <= tcls(t) && tcls(t) <= 5
+spec covered(t ddptypes.Type) bool :=
+  byValueT(t) || (!isListT(t) && (tcls(t) == 6 || tcls(t) == 7)) || (isListT(t) && 1 <= tcls(elemT(t)) && tcls(elemT(t)) <= 7)
+axiom rep_by_value: forall c *compiler, ty ddptypes.ParameterType :: !ty.IsReference && byValueT(ty.Type) ==> rep(c, ty) == valOf(descr(c, tcls(ty.Type)))
+axiom rep_referenz: forall c *compiler, ty ddptypes.ParameterType :: ty.IsReference && byValueT(ty.Type) ==> rep(c, ty) == ptrOf(descr(c, tcls(ty.Type)))
+axiom rep_text:     forall c *compiler, ty ddptypes.ParameterType :: !isListT(ty.Type) && tcls(ty.Type) == 6 ==> rep(c, ty) == ptrOf(box(c.ddpstring))
+axiom rep_variable: forall c *compiler, ty ddptypes.ParameterType :: !isListT(ty.Type) && tcls(ty.Type) == 7 ==> rep(c, ty) == ptrOf(box(c.ddpany))
+axiom rep_list: forall c *compiler, ty ddptypes.ParameterType :: isListT(ty.Type) ==>
+     (tcls(elemT(ty.Type)) == 1 ==> rep(c, ty) == ptrOf(box(c.ddpintlist)))
+  && (tcls(elemT(ty.Type)) == 2 ==> rep(c, ty) == ptrOf(box(c.ddpfloatlist)))
+  && (tcls(elemT(ty.Type)) == 3 ==> rep(c, ty) == ptrOf(box(c.ddpbytelist)))
+  && (tcls(elemT(ty.Type)) == 4 ==> rep(c, ty) == ptrOf(box(c.ddpboollist)))
+  && (tcls(elemT(ty.Type)) == 5 ==> rep(c, ty) == ptrOf(box(c.ddpcharlist)))
+  && (tcls(elemT(ty.Type)) == 6 ==> rep(c, ty) == ptrOf(box(c.ddpstringlist)))
+  && (tcls(elemT(ty.Type)) == 7 ==> rep(c, ty) == ptrOf(box(c.ddpanylist)))
+spec repOK(c *compiler, ty ddptypes.ParameterType, t types.Type) bool :=
+     (covered(ty.Type) ==> t == rep(c, ty))
+  && (!isListT(ty.Type) && isStructT(ty.Type) ==> t == ptrOf(box(c.structTypes[ddptypes.tnorm(ty.Type).(*ddptypes.StructType)])))
+// ... extended to parameters of generic extern functions (opaque pointers)
+spec sigOK(c *compiler, ty ddptypes.ParameterType, t types.Type) bool :=
+  ddptypes.isGenericT(ty.Type) ? (ty.IsReference ? t == box(i8ptr) : t == ptrOf(box(c.ddpgenericlist))) : repOK(c, ty, t)
+// descriptor of a return type
+spec retOK(c *compiler, rt ddptypes.Type, d ddpIrType) bool :=
+  ddptypes.isGenericT(rt) ? d == box(c.ddpgenericlist) :
+     ((!isListT(rt) && 1 <= tcls(rt) && tcls(rt) <= 5 ==> d == descr(c, tcls(rt)))
+   && (!isListT(rt) && tcls(rt) == 6 ==> d == box(c.ddpstring))
+   && (!isListT(rt) && tcls(rt) == 7 ==> d == box(c.ddpany))
+   && (isListT(rt) && tcls(elemT(rt)) == 1 ==> d == box(c.ddpintlist))
+   && (isListT(rt) && tcls(elemT(rt)) == 2 ==> d == box(c.ddpfloatlist))
+   && (isListT(rt) && tcls(elemT(rt)) == 3 ==> d == box(c.ddpbytelist))
+   && (isListT(rt) && tcls(elemT(rt)) == 4 ==> d == box(c.ddpboollist))
+   && (isListT(rt) && tcls(elemT(rt)) == 5 ==> d == box(c.ddpcharlist))
+   && (isListT(rt) && tcls(elemT(rt)) == 6 ==> d == box(c.ddpstringlist))
+   && (isListT(rt) && tcls(elemT(rt)) == 7 ==> d == box(c.ddpanylist))
+   && (!isListT(rt) && isStructT(rt) ==> d == box(c.structTypes[ddptypes.tnorm(rt).(*ddptypes.StructType)])))
+
+func (*compiler).getPossiblyGenericParamType [C18]
+  requires c != nil && param != nil
+  modifies nothing
+  ensures sigOK(c, param.Type, result)
+
+func (*compiler).getPossiblyGenericReturnType [C18]
+  requires c != nil && decl != nil
+  modifies nothing
+  ensures retOK(c, decl.ReturnType, result)
+  ensures !ddptypes.isGenericT(decl.ReturnType) && !isListT(decl.ReturnType) && 1 <= tcls(decl.ReturnType) && tcls(decl.ReturnType) <= 5 ==> result.IsPrimitive()
+  ensures ddptypes.isGenericT(decl.ReturnType) || isListT(decl.ReturnType) || tcls(decl.ReturnType) == 6 || tcls(decl.ReturnType) == 7 || isStructT(decl.ReturnType) ==> !result.IsPrimitive()
+
+// TRUSTED frame: computing a symbol name touches only the package-level name cache
+func (*compiler).mangledNameDecl
+  trusted
+  modifies nothing
+
+// the IR signature handed to llir: out-pointer first for a non-primitive result (then the IR function returns void),
+// then one IR parameter per declared parameter, in order, each in the published representation
+func (*compiler).VisitFuncDecl [C18]
+  requires c != nil && decl != nil
+  // ASSUMED AST link: an instantiation knows the generic declaration it was made from
+  requires decl.GenericInstantiation != nil ==> decl.GenericInstantiation.GenericDecl != nil
+  callsite NewFunc requires retOK(c, decl.ReturnType, retType)
+  callsite NewFunc requires retType.IsPrimitive() ==> len(arg3) == len(decl.Parameters) && arg2 == valOf(retType)
+  callsite NewFunc requires !retType.IsPrimitive() ==>
+             len(arg3) == len(decl.Parameters) + 1 && arg3[0].Typ == ptrOf(retType) && arg2 == valOf(box(c.void))
+  callsite NewFunc requires forall i int :: 0 <= i && i < len(decl.Parameters) ==>
+             sigOK(c, decl.Parameters[i].Type, arg3[i + (retType.IsPrimitive() ? 0 : 1)].Typ)
+  loop 0 invariant rangeindex0 < len(decl.Parameters)
+  loop 0 invariant len(params) == rangeindex0 + 1 + (retType.IsPrimitive() ? 0 : 1)
+  loop 0 invariant !retType.IsPrimitive() ==> params[0].Typ == ptrOf(retType)
+  loop 0 invariant forall i int :: 0 <= i && i <= rangeindex0 && i < len(decl.Parameters) ==>
+             sigOK(c, decl.Parameters[i].Type, params[i + (retType.IsPrimitive() ? 0 : 1)].Typ)
+  loop 0 invariant retOK(c, decl.ReturnType, retType)
+  loop 0 invariant hasReturnParam == !retType.IsPrimitive()
+  loop 0 invariant retTypeIr == (retType.IsPrimitive() ? valOf(retType) : valOf(box(c.void)))
+
+// the same signature is declared for a function imported from another module
+func (*compiler).declareImportedFuncDecl [C18]
+  requires c != nil && decl != nil
+  callsite NewFunc requires retOK(c, decl.ReturnType, retType)
+  callsite NewFunc requires retType.IsPrimitive() ==> len(arg3) == len(decl.Parameters) && arg2 == valOf(retType)
+  callsite NewFunc requires !retType.IsPrimitive() ==>
+             len(arg3) == len(decl.Parameters) + 1 && arg3[0].Typ == ptrOf(retType) && arg2 == valOf(box(c.void))
+  callsite NewFunc requires forall i int :: 0 <= i && i < len(decl.Parameters) ==>
+             sigOK(c, decl.Parameters[i].Type, arg3[i + (retType.IsPrimitive() ? 0 : 1)].Typ)
+  loop 1 invariant rangeindex1 < len(decl.Parameters)
+  loop 1 invariant len(params) == rangeindex1 + 1 + (retType.IsPrimitive() ? 0 : 1)
+  loop 1 invariant !retType.IsPrimitive() ==> params[0].Typ == ptrOf(retType)
+  loop 1 invariant forall i int :: 0 <= i && i <= rangeindex1 && i < len(decl.Parameters) ==>
+             sigOK(c, decl.Parameters[i].Type, params[i + (retType.IsPrimitive() ? 0 : 1)].Typ)
+  loop 1 invariant retOK(c, decl.ReturnType, retType)
+  loop 1 invariant hasReturnParam == !retType.IsPrimitive()
+  loop 1 invariant retTypeIr == (retType.IsPrimitive() ? valOf(retType) : valOf(box(c.void)))
 @*/
